@@ -83,6 +83,16 @@ class PromoInvariant(Oracle):
         ref = [{lv: sorted((e[0], float(e[1]), bool(e[3])) for e in lst) for lv, lst in d.items() if lst} for d in self.ref.rungs]
         if impl != ref:
             return [("promotion:rung-contents", f"rung contents differ: impl {impl} reference {ref}")]
+        if self.ref.kind == "cost_promotion":
+            # the recorded cost of an entry is the *total* cost c(x, r) of the trial up to that level (class docstring)
+            for rs_, d in zip(systems, self.ref.rungs):
+                for rung in rs_._rungs:
+                    want = {e[0]: e[2] for e in d.get(rung.level, [])}
+                    for e in rung.data:
+                        w_ = want.get(int(e.trial_id))
+                        if w_ is not None and abs(float(e.cost_val) - w_) > 1e-9 * max(1.0, abs(w_)):
+                            return [("promotion:rung-cost", f"rung {rung.level}: trial {e.trial_id} recorded with cost {e.cost_val}, "
+                                                            f"total cost to reach the level is {w_}")]
         return []
 
 
